@@ -878,5 +878,18 @@ Proof.
   unfold flag_of. rewrite F3. cbn [wflag]. rewrite Hi. apply orb_true_r.
 Qed.
 
+
+(* ------------------------------------------------------------------ a failed NewUpdater disturbs nobody *)
+(* NewUpdater whose builder fails returns the error (store.go:768-771) and does nothing else: the store - every
+   entry, every handle, EVERY watcher registration and slot, its own included - and every other updater are
+   exactly what they were.  (Its own registration stays behind, unobservably: a slot nobody reads.) *)
+Lemma failed_new_disturbs_nobody (s : ustate) j : st (fst (step s (EBuilt j false))) = st s /\
+  forall i, i <> j -> nth_error (us (fst (step s (EBuilt j false)))) i = nth_error (us s) i.
+Proof.
+  cbn [step]. destruct (nth_error (us s) j) as [uj|]; [|auto]. destruct (uph uj); auto.
+  destruct (upend uj); auto. cbn [fst st us]. split; [reflexivity|]. intros i D.
+  rewrite nth_error_set_nth. destruct (Nat.eqb j i) eqn:E; [apply Nat.eqb_eq in E; congruence|reflexivity].
+Qed.
+
 End Proofs.
 
